@@ -176,8 +176,13 @@ def build_harness(race=False, tags="verif"):
         return _built[key]
     outdir = scratch("jv-bin-")
     exe = os.path.join(outdir, "jetharness" + ("-race" if race else ""))
-    shutil.copy(os.path.join(REPO, "go.sum"), os.path.join(HARNESS, "go.sum"))
-    gomod = os.path.join(HARNESS, "go.mod")
+    hdir = HARNESS
+    if os.path.realpath(REPO) != "/repo":
+        # a scratch copy of the library (mutant trials): build from a private copy of the harness module
+        hdir = os.path.join(outdir, "harness")
+        shutil.copytree(HARNESS, hdir)
+    shutil.copy(os.path.join(REPO, "go.sum"), os.path.join(hdir, "go.sum"))
+    gomod = os.path.join(hdir, "go.mod")
     txt = open(gomod).read()
     want = "replace github.com/CloudyKit/jet/v6 => %s" % REPO
     new = re.sub(r"replace github.com/CloudyKit/jet/v6 => \S+", want, txt)
@@ -187,7 +192,7 @@ def build_harness(race=False, tags="verif"):
     if race:
         cmd.append("-race")
     cmd.append(".")
-    p = subprocess.run(cmd, cwd=HARNESS, env=GOENV, stdout=subprocess.PIPE, stderr=subprocess.STDOUT,
+    p = subprocess.run(cmd, cwd=hdir, env=GOENV, stdout=subprocess.PIPE, stderr=subprocess.STDOUT,
                        text=True)
     if p.returncode != 0:
         raise Inconclusive("harness build failed against %s:\n%s" % (REPO, p.stdout[-3000:]))
@@ -295,7 +300,8 @@ class Report:
         rc = 0
         paths = []
         import glob
-        for old in glob.glob(os.path.join(VERIF, "replays", "%s-%s-*.json" % (self.prop, self.tier))):
+        rdir = os.path.join(VERIF, "replays") if not os.environ.get("VERIF_NO_EVIDENCE") else scratch("jv-replays-")
+        for old in glob.glob(os.path.join(rdir, "%s-%s-*.json" % (self.prop, self.tier))):
             os.unlink(old)
         if self.violations:
             groups = {}
@@ -305,7 +311,6 @@ class Report:
             print("violation classes (%d):" % len(groups))
             for k, n in sorted(groups.items(), key=lambda x: -x[1])[:int(os.environ.get('VERIF_MAXCLASSES', '40'))]:
                 print("  %6d  %s" % (n, k[:300]))
-            rdir = os.path.join(VERIF, "replays")
             os.makedirs(rdir, exist_ok=True)
             for i, (sig, replay) in enumerate(self.violations[:int(os.environ.get('VERIF_MAXREPLAY', '5'))]):
                 p = os.path.join(rdir, "%s-%s-%d.json" % (self.prop, self.tier, i))
@@ -331,8 +336,9 @@ class Report:
               "level": "model_checking", "coverage": cov,
               "assumptions": self.assumptions, "wall_s": round(wall, 2),
               "violations": len(self.violations)}
-        os.makedirs(os.path.join(VERIF, "evidence"), exist_ok=True)
-        json.dump(ev, open(os.path.join(VERIF, "evidence", self.prop + ".json"), "w"), indent=1)
+        if not os.environ.get("VERIF_NO_EVIDENCE"):
+            os.makedirs(os.path.join(VERIF, "evidence"), exist_ok=True)
+            json.dump(ev, open(os.path.join(VERIF, "evidence", self.prop + ".json"), "w"), indent=1)
         print("%s %s: states=%d transitions=%d vectors=%d traces=%d nontrivial=%d violations=%d known=%d wall=%.1fs"
               % (self.prop, self.tier, self.states, self.transitions, self.evaluations, self.traces,
                  len(self.nontrivial), len(self.violations), sum(self.known.values()), wall))
